@@ -171,6 +171,8 @@ def run(chk: Check) -> None:
     run_tuple_siblings(chk, ix)
     run_cache_writers(chk, ix)
     run_class_object_protocol_checks(chk, ix)
+    run_assumption_discipline(chk, ix)
+    run_no_inplace_hash_mutation(chk, ix)
 
     # ---------------- R08.2
     r2 = chk.rule("R08.2", "for every Type subclass the attributes hashed by __hash__ are compared by __eq__ (equal values hash equal; the memo never misses or conflates because of an uncompared hashed field)", floor=15)
@@ -332,3 +334,110 @@ def run_class_object_protocol_checks(chk: Check, ix) -> None:
                 r5.violation(key, f.loc(c), f"`{norm(a0)}` is what a type[...] / type object stands for, but the call asks whether its instances implement the protocol: a class whose instances have the members (and whose class object does not) is treated as implementing it")
     if n < 2:
         raise AnalysisError(f"only {n} class-object protocol checks found")
+
+
+def run_assumption_discipline(chk: Check, ix) -> None:
+    """R08.6: a positive memo entry is not derived from an unverified assumption."""
+    from ..cfg import branch_conditions
+    r6 = chk.rule("R08.6", "is_subtype / is_proper_subtype check recursive aliases co-inductively: the pair is pushed on TypeState._assuming / _assuming_proper and assumed to hold while it is being verified. A positive answer computed while such an assumption is pending may rest on it, so TypeState.record_subtype_cache_entry stores nothing while either stack is non-empty (negative answers do not depend on assumptions: assuming more can only make more pairs subtypes); otherwise an entry survives the refutation of the assumption it was derived from and later, unrelated checks get a wrong answer from the cache", floor=2)
+    ts = ix.cls("mypy.typestate.TypeState")
+    rec = ts.methods["record_subtype_cache_entry"]
+    stacks = sorted(a for a in ("_assuming", "_assuming_proper") if any(isinstance(x, ast.Attribute) and x.attr == a for m in ts.methods.values() for x in ast.walk(m.node)))
+    if len(stacks) < 2:
+        raise AnalysisError(f"TypeState assumption stacks not found: {stacks}")
+    par = rec.module.parents()
+    adds = [c for c in ast.walk(rec.node) if isinstance(c, ast.Call) and isinstance(c.func, ast.Attribute) and c.func.attr == "add"]
+    if not adds:
+        raise AnalysisError("record_subtype_cache_entry: the store into the cache was not found")
+    st = adds[0]
+    while not isinstance(st, ast.stmt):
+        st = par[st]
+    pos, neg = branch_conditions(par, rec.node, st, early_exits=True)
+    excluded = {x.attr for t in neg for x in ast.walk(t) if isinstance(x, ast.Attribute)}
+    for a in stacks:
+        key = f"record_subtype_cache_entry stores nothing while TypeState.{a} is non-empty"
+        if a in excluded:
+            r6.ok(key, rec.loc(st))
+        else:
+            r6.violation(key, rec.loc(st), f"the positive entry is stored whatever `self.{a}` holds: an answer that relies on a pending assumption about recursive aliases outlives the assumption")
+
+
+CHECK_TIME_MODULES = ("mypy.typeops", "mypy.checker", "mypy.checkexpr", "mypy.checkmember", "mypy.checkpattern", "mypy.checkstrformat", "mypy.join", "mypy.meet", "mypy.subtypes", "mypy.expandtype", "mypy.applytype", "mypy.solve", "mypy.constraints", "mypy.infer", "mypy.binder", "mypy.erasetype", "mypy.plugins.")
+FRESH_MAKERS = {"copy_modified", "copy_with_extra_attr", "copy_type", "copy", "with_name", "with_unpacked_kwargs", "deserialize", "read", "erase_type", "expand_type", "expand_type_by_instance", "fill_typevars", "named_type", "named_generic_type", "function_type", "type_object_type", "bind_self", "make_union", "make_simplified_union"}
+
+
+def run_no_inplace_hash_mutation(chk: Check, ix) -> None:
+    """R08.7: while types are being compared and cached, a hashed field of a type somebody else may hold is not assigned."""
+    from ..resolve import Resolver, members
+    r7 = chk.rule("R08.7", "types are keys of the subtype caches and elements of sets (hashed by the fields __hash__ reads, R08.2) and are shared freely (binder, type map, caches); in the modules that run during type checking, an assignment to such a hashed field (`t.args = ..`, `t.extra_attrs = ..`) is made only on an object the same function has just created (constructor, copy_modified, copy_with_extra_attr, ...; the nearest preceding binding of the variable), never on one that was passed in or looked up: otherwise the type of an unrelated expression changes as a side effect and cached answers are filed under a stale hash", floor=4)
+    R = Resolver(ix)
+    TYPE = ix.cls("mypy.types.Type")
+    tc = {c.qualname: c for c in TYPE.all_subclasses()}
+    type_names = {c.name for c in tc.values()}
+    hf: dict[str, set[str]] = {}
+    for q, c in tc.items():
+        for k in c.mro():
+            h = hash_fields(k)
+            if h is not None:
+                hf[q] = h
+                break
+    n = 0
+    for q, f in sorted(ix.functions.items()):
+        mn = f.module.name
+        if f.parent is not None or not (mn in CHECK_TIME_MODULES or mn.startswith("mypy.plugins.")):
+            continue
+        env = None
+        par = None
+        for a in ast.walk(f.node):
+            if not isinstance(a, (ast.Assign, ast.AugAssign)):
+                continue
+            for t in (a.targets if isinstance(a, ast.Assign) else [a.target]):
+                if not isinstance(t, ast.Attribute) or (isinstance(t.value, ast.Name) and t.value.id == "self"):
+                    continue
+                if env is None:
+                    env = R.env(f)
+                try:
+                    ty = R.type_of(t.value, f, env)
+                except Exception:
+                    continue
+                cl = [x[1] for x in members(ty) if x[0] == "cls" and x[1] in tc]
+                if not cl or not any(t.attr in hf.get(c, set()) for c in cl):
+                    continue
+                n += 1
+                key = f"{q}: `{norm(t)} = ...` assigns a hashed field of a {'/'.join(sorted({c.split('.')[-1] for c in cl}))[:40]} the function created itself"
+                fresh = False
+                why = "the object is not a plain local"
+                if isinstance(t.value, ast.Name):
+                    par = par or f.module.parents()
+                    # nearest preceding binding of the variable on the way up through the enclosing blocks
+                    v = t.value.id
+                    cur = a
+                    found = None
+                    while cur is not None and cur is not f.node and found is None:
+                        p = par.get(cur)
+                        for fld in ("body", "orelse", "finalbody"):
+                            blk = getattr(p, fld, None)
+                            if isinstance(blk, list) and any(x is cur for x in blk):
+                                idx = [i for i, x in enumerate(blk) if x is cur][0]
+                                for prev in reversed(blk[:idx]):
+                                    binds = [x for x in ast.walk(prev) if isinstance(x, (ast.Assign, ast.AnnAssign)) and any(isinstance(tt, ast.Name) and tt.id == v for tt in (x.targets if isinstance(x, ast.Assign) else [x.target]))]
+                                    if binds:
+                                        found = binds  # a compound statement may bind the variable in several arms
+                                        break
+                        cur = p
+                    if found is None or any(b.value is None for b in found):
+                        why = f"`{v}` is a parameter or is bound outside the enclosing blocks"
+                    else:
+                        def is_fresh(val: ast.expr) -> bool:
+                            if isinstance(val, ast.Call) and isinstance(val.func, ast.Attribute) and val.func.attr in FRESH_MAKERS:
+                                return True
+                            cn = call_name(val) if isinstance(val, ast.Call) else None
+                            return cn is not None and (cn in FRESH_MAKERS or cn in type_names)
+                        fresh = all(is_fresh(b.value) for b in found)
+                        why = f"`{v}` was last bound to " + " / ".join(f"`{norm(b.value)[:50]}`" for b in found)
+                if fresh:
+                    r7.ok(key, f.loc(a), why)
+                else:
+                    r7.violation(key, f.loc(a), f"{why}: that object may be held elsewhere (the binder, the type map, a cache key), and this assignment changes it there too")
+    if n < 4:
+        raise AnalysisError(f"only {n} assignments to hashed type fields found in type-checking-time modules")
